@@ -1154,6 +1154,63 @@ Definition run_kind2 (c : case) : bytes :=
   | _ => bad_case_output
   end.
 
+(* ---- kind 3: the buffer alone (real bufferer, scripted consumer of the harness) ----
+   zargs as for kind 2 (ackcap unused); events 1..11 as there (buffer-internal) and
+     12 BTake   13 id ul BConsumed   14 id wr BLeftover   15 BFinish
+   output: ok:b=<buffer counters>;f=<files> *)
+Fixpoint b_run_pos (cfg : bcfg) (s : bstate) (evs : list b_event) (pos : Z) : bstate + Z :=
+  match evs with
+  | [] => inl s
+  | e :: evs' => match b_step cfg s e with Some s' => b_run_pos cfg s' evs' (pos + 1) | None => inr pos end
+  end.
+
+Fixpoint parse_bevents (fuel : nat) (sizes : list Z) (l : list Z) : option (list b_event) :=
+  match fuel with
+  | O => None
+  | S f =>
+    let k := parse_bevents f sizes in
+    let cons e r := option_map (cons e) r in
+    match l with
+    | [] => Some []
+    | 1 :: id :: r => cons (BRecover id (size_of sizes id)) (k r)
+    | 2 :: id :: sp :: wr :: r => cons (BAccept id (size_of sizes id) (zb sp) (zb wr)) (k r)
+    | 3 :: r => cons BFeedTake (k r)
+    | 4 :: rd :: ul :: r => cons (BFeedLoad (zb rd) (zb ul)) (k r)
+    | 5 :: r => cons BFeedPush (k r)
+    | 6 :: r => cons BDestroy (k r)
+    | 7 :: r => cons BFeedAbort (k r)
+    | 8 :: r => cons BFeedEnd (k r)
+    | 9 :: wr :: r => cons (BSaveQueue (zb wr)) (k r)
+    | 10 :: wr :: r => cons (BSaveLast (zb wr)) (k r)
+    | 11 :: wr :: r => cons (BSaveWindow (zb wr)) (k r)
+    | 12 :: r => cons BTake (k r)
+    | 13 :: id :: ul :: r => cons (BConsumed id (zb ul)) (k r)
+    | 14 :: id :: wr :: r => cons (BLeftover id (zb wr)) (k r)
+    | 15 :: r => cons BFinish (k r)
+    | _ => None
+    end
+  end.
+
+Definition run_kind3 (c : case) : bytes :=
+  match skipn 6 (c_zargs c) with
+  | dir :: quota :: qcap :: wcap :: fix5 :: ackcap :: nfiles0 :: nch :: rest =>
+    let n := Z.to_nat nch in
+    let sizes := firstn n rest in
+    let evz := skipn n rest in
+    if Nat.ltb (length rest) n then bad_case_output else
+    match parse_bevents (S (length evz)) sizes evz with
+    | None => bad_case_output
+    | Some evs =>
+      let bc := BC (zb dir) quota (Z.to_nat qcap) (Z.to_nat wcap) (zb fix5) in
+      match b_run_pos bc (b_init nfiles0) evs 0 with
+      | inr pos => str_reject ++ colon :: zs pos
+      | inl s =>
+        str_ok ++ colon :: [98; 61]%N ++ bm_text (b_m s) ++ ch_semi :: [102; 61]%N ++ zs (b_nfiles s)
+      end
+    end
+  | _ => bad_case_output
+  end.
+
 (* kind 9: a scenario descriptor; the implementation side runs the scenario and emits the cases of
    kind 1 and 2 derived from what it observed *)
 Definition str_scn : bytes := [115;99;110]%N.
@@ -1162,6 +1219,7 @@ Definition run_case_C19 (c : case) : bytes :=
   match c_kind c with
   | 1%N => run_kind1 c
   | 2%N => run_kind2 c
+  | 3%N => run_kind3 c
   | 9%N => str_scn
   | _ => bad_case_output
   end.
